@@ -279,7 +279,7 @@ func checkC16(r *Run) {
 	if f := r.fn("store/types.KVGasConfig"); f != nil {
 		for _, ret := range Returns(f) {
 			t := P.TermAt(ret.Results[0], ret).String()
-			want := "complit:store/types.GasConfig{HasCost=1000, DeleteCost=1000, ReadCostFlat=1000, ReadCostPerByte=3, WriteCostFlat=2000, WriteCostPerByte=30, IterNextCostFlat=30}"
+			want := "complit:store/types.GasConfig{DeleteCost=1000, HasCost=1000, IterNextCostFlat=30, ReadCostFlat=1000, ReadCostPerByte=3, WriteCostFlat=2000, WriteCostPerByte=30}"
 			r.Check(t == want, "C16-R2", "KVGasConfig/shipped-table", P.InstrPos(ret), t, "shipped cost table is "+t+" ; documented "+want)
 		}
 	}
